@@ -49,6 +49,10 @@ CLAIMED = {
          "Lean 4 theorem (totality of the modelled observers) + differential correspondence under catch_unwind", "9/C12"),
  "C16": ("into_owned_eq for names, values, RDATA, records, questions, packets (hence identical bytes from both serialisers), rr_eq_hash (records equal under the library's == feed the hasher identically), instance_eq_hash (equal instance information hashes equally for every insertion order: sort of permutation-equal duplicate-free lists), hash_ignores_what_eq_ignores proved; the 40 per-type into_owned bodies are tied to the model by the correspondence.",
          "Lean 4 theorem (field-wise identity, permutation-invariant hash feed) + differential correspondence", "9/C16"),
+ "C14": ("pipeline_no_panic / pipeline_total (responder, discovery listener and one-shot resolver steps return a value for every datagram, store and clock; buildG_ne_panic for every packet), store_usable (the store invariant survives every datagram), reply_parseable (every reply produced from a store of well-formed records parses back to the packet build_reply assembled) proved; partial: threads, sockets and RwLock poisoning are consequences of a panic and are only exercised (hook pipelines for all generated datagrams, loopback multicast for a sample).",
+         "Lean 4 theorem (totality of the handling pipeline + invariant preservation) + differential correspondence + live socket run", "9/C14"),
+ "C15": ("discovery_faithful (end to end: announce -> compressed wire -> parse -> ingest -> known returns exactly the advertised instance until the TTL elapses and nothing afterwards), from_records_of_into_records, ingest_filter / ingest_ignores (own, service-name and non-subdomain records are never cached), escape_unescape, empty_key_indistinguishable proved; maps containing the empty key are the recorded known finding empty-attribute-key.",
+         "Lean 4 theorem (composition of the wire, store and TXT round trips) + differential correspondence", "9/C15"),
 }
 PENDING = {f"C{n:02d}": "check not built yet (implementation of DESIGN.md in progress); will be claimed at level proof" for n in range(1, 21)}
 try:
